@@ -198,7 +198,6 @@ let do_lexq id =
 
 (* ---- Planner.plan, schema scope (Qual/Replay.v) *)
 let do_replay id =
-  let deep = next_bool () in
   let q = next_opt () in
   let mode = n_of_int (next_int ()) in
   let dev = next_bytes () in
@@ -209,7 +208,7 @@ let do_replay id =
   let nd = next_int () in let des = times nd tab in
   let nm = next_int () in let mods = times nm next_bytes in
   let modified t1 _ = Stdlib.List.mem t1.rt_name mods in
-  match planner_plan modified deep q mode dev user objs cur des with
+  match planner_plan modified q mode dev user objs cur des with
   | PNoPlan -> Printf.printf "%s noplan\n" id
   | PPlanned -> Printf.printf "%s planned\n" id
   | PRejected r -> Printf.printf "%s rejected:%s\n" id (show_scope r)
